@@ -141,6 +141,11 @@ def _eval_op(impl, mid, args):
     tabs = file_tables(F, masks, full)
     out = [f'{n[0]}:{tabs[n[0]]}' for n in F['nodes']]
     out += [f'r{r}:{root_table(tabs, full, r)}' for r in F['rootids']]
+    if 'orderedvarnames' in F or 'suppvarnames' in F:
+        # the model also prints `evalFormat` (theorems `C16_format`, `C16_varinfo*`): the reading rule
+        # of the format on the header lines, which is what `file_tables` implements
+        out += [f'F{n[0]}:{tabs[n[0]]}' for n in F['nodes']]
+        out += [f'Fr{r}:{root_table(tabs, full, r)}' for r in F['rootids']]
     return ';'.join(out)
 
 
@@ -389,7 +394,7 @@ def _build_driver(ctx):
         raise RuntimeError('lake build ' + DRIVER + ' failed:\n' + out[-3000:])
 
 
-def load_and_check(ctx, s, F, expect, names, label, extra_tags=None):
+def load_and_check(ctx, s, F, expect, names, label, extra_tags=None, chain=None):
     """Load `F` into manager 0 of session `s`; `expect` = set of truth tables (over the
     sorted `names`, by the names the manager must use) of the file's root entries, or None
     when only the correspondence with the model is wanted."""
@@ -406,7 +411,16 @@ def load_and_check(ctx, s, F, expect, names, label, extra_tags=None):
         return b
     # the specification of the theorems (`evalFile` in Lean) against the harness's evaluator
     s._do('\t'.join(['0', 'dddmp_eval', 'names=' + ','.join(str(x) for x in names)] + encode(F)))
-    bad = check_invariants(b)
+    # the returned manager is a reachable state with an EMPTY ledger (theorem `C16_load_good`):
+    # counts = stored edges exactly (no reference on the roots), reordering off, roots are nodes
+    bad = check_invariants(b, ledger={})
+    if b._last_len is not None:
+        bad.append(f'_last_len = {b._last_len} after load')
+    bad += [f'root {r} is not a node' for r in b.roots if abs(r) not in b._succ]
+    # the order is the file's (`C16_order_ordered`, `C16_order_supp`)
+    want = expected_order(F)
+    if want is not None and dict(b.vars) != want:
+        bad.append(f'variable order {dict(b.vars)} != order of the file {want}')
     str_names = [v for v in b.vars]
     bad += canon_problems(b, sorted(str_names, key=str))
     if bad:
@@ -439,7 +453,98 @@ def load_and_check(ctx, s, F, expect, names, label, extra_tags=None):
                  names=[str(x) for x in tt.names],
                  tags=dict(call='dddmp.load', symptom='roots-denote-other-functions',
                            **(extra_tags or {}))))
+    elif chain == 'hold' and b.roots:
+        chain_after_load(ctx, s, b, F, exp, tt.names, label)
+    elif chain == 'unheld':
+        unheld_gc_after_load(ctx, s, b, F, label)
     return b
+
+
+def expected_order(F):
+    """Variable order the loaded manager must have, from the header lines alone: with
+    `.orderedvarnames` that list; else `suppvarnames[j]` at the rank of `permids[j]`;
+    None for files without names or with repeated entries (outside the theorems)."""
+    ordered = F.get('orderedvarnames')
+    if ordered is not None:
+        if len(set(ordered)) != len(ordered):
+            return None
+        return {v: k for k, v in enumerate(ordered)}
+    names = F.get('suppvarnames')
+    permids = F.get('permids')
+    if names is None or permids is None or len(names) != len(permids):
+        return None
+    if len(set(names)) != len(names) or len(set(permids)) != len(permids):
+        return None
+    rank = {k: i for i, k in enumerate(sorted(permids))}
+    return {v: rank[k] for v, k in zip(names, permids)}
+
+
+def chain_after_load(ctx, s, b, F, expect, names, label):
+    """The loaded manager is used as any other manager (theorems `C16_then_apply`,
+    `C16_then_exist`, `C16_then_gc`): hold the roots, a connective of two roots, a
+    quantification, a collection — answers and states compared with the model, results with
+    the truth tables (over `names`) of the file's root entries `expect`."""
+    names = list(names)
+    tt0 = TT(b, names)
+    roots = sorted(b.roots)
+    for r in roots:
+        s.incref(0, r)
+    bad = []
+    r1, r2 = roots[0], roots[-1]
+    t1, t2 = tt0.of(r1), tt0.of(r2)
+    ans = s.op(0, 'apply', 'and', r1, r2)
+    u = s.val(ans)
+    if u is None:
+        bad.append(f'apply(and, {r1}, {r2}) on the loaded manager: {ans}')
+    elif TT(b, names).of(u) != (t1 & t2):
+        bad.append(f'apply(and, {r1}, {r2}) = {u} denotes another function')
+    str_vars = sorted(v for v in b.vars if isinstance(v, str) and v in names
+                      and ',' not in v and '\t' not in v)
+    if str_vars:
+        v = str_vars[len(str_vars) // 2]
+        ans = s.op(0, 'quantify', r1, 'n:' + v, 0)
+        q = s.val(ans)
+        if q is None:
+            bad.append(f'exist({v}, {r1}) on the loaded manager: {ans}')
+        else:
+            k = names.index(v)
+            want = 0
+            for a in range(1 << len(names)):
+                if ((t1 >> (a | (1 << k))) & 1) or ((t1 >> (a & ~(1 << k))) & 1):
+                    want |= 1 << a
+            if TT(b, names).of(q) != want:
+                bad.append(f'exist({v}, {r1}) = {q} denotes another function')
+    s.op(0, 'gc')
+    s.state(0)
+    bad += check_invariants(b, ledger=s.ledger.get(0, {}))
+    tt1 = TT(b, names)
+    got = set()
+    for r in roots:
+        if abs(r) not in b._succ:
+            bad.append(f'held root {r} collected')
+        else:
+            got.add(tt1.of(r))
+    if not bad and got != set(expect):
+        bad.append('roots denote other functions after the collection')
+    for r in roots:
+        s.decref(0, r)
+    if bad:
+        ctx.violation(f'{label}: using the loaded manager: {bad[:3]}',
+                      dict(file=render_text(F), problems=bad[:5],
+                           tags=dict(call='dddmp.load', symptom='loaded-manager-not-usable')))
+    ctx.count('chain-after-load')
+
+
+def unheld_gc_after_load(ctx, s, b, F, label):
+    """`C16_gc_unheld`: nobody holds the roots, so a collection right after `load` empties the
+    manager (model and code compared; the oracle only asks that no node survives)."""
+    s.op(0, 'gc')
+    s.state(0)
+    if len(b._succ) != 1:
+        ctx.violation(f'{label}: collection right after load keeps nodes nobody holds',
+                      dict(file=render_text(F), succ=repr(dict(b._succ)),
+                           tags=dict(call='dddmp.load', symptom='unheld-nodes-survive-gc')))
+    ctx.count('unheld-gc-after-load')
 
 
 def _lift(t, names, tt):
@@ -502,8 +607,19 @@ def check_C16(ctx):
     sp = Space(['a', 'b'])
     tabs = file_tables(F, sp.masks, sp.full)
     load_and_check(ctx, s, F, {root_table(tabs, sp.full, r) for r in F['rootids']}, sp.names,
-                   'corpus-F1')
+                   'corpus-F1', chain='hold')
     ctx.case('corpus-F1')
+    # the file of the chain example of `DDProps/C16Chain.lean` (`dddmpChain`): order z < x < y differs
+    # from the listing, gaps in .permids, a complemented else-edge, parent-first numbering
+    F = dict(varinfo=0, nnodes=4, nvars=6, nsuppvars=3, suppvarnames=['x', 'y', 'z'],
+             ids=[4, 7, 1], permids=[2, 5, 0], nroots=2, rootids=[2, -4],
+             nodes=[(2, 1, 2, 4, 3), (1, 'T', 1, 0, 0), (4, 4, 0, 1, -3), (3, 7, 1, 1, -1)])
+    sp = Space(['x', 'y', 'z'])
+    tabs = file_tables(F, sp.masks, sp.full)
+    for chain in ('hold', 'unheld'):
+        load_and_check(ctx, s, F, {root_table(tabs, sp.full, r) for r in F['rootids']}, sp.names,
+                       'corpus-chain', chain=chain)
+    ctx.case('corpus-chain')
     ctx.add_session(s, SECTIONS_L3, 'corpus-F1')
     s.close()
     # 1. the sample files of the repository
@@ -519,7 +635,7 @@ def check_C16(ctx):
         masks, full = lib.var_masks(spn)
         tabs = file_tables(F, masks, full)
         expect = {root_table(tabs, full, r) for r in F['rootids']}
-        load_and_check(ctx, s, F, expect, spn, f'sample{k}')
+        load_and_check(ctx, s, F, expect, spn, f'sample{k}', chain='hold')
         ctx.case(f'sample{k}')
         ctx.count('sample-file')
         ctx.add_session(s, SECTIONS_L3, f'sample{k}')
@@ -579,7 +695,9 @@ def check_C16(ctx):
                     ctx.count('complemented-root')
                 if list(ext) != sorted(ext):
                     ctx.count('numbering-not-in-generator-order')
-                load_and_check(ctx, s, F, expect, onames, label)
+                # every 3rd case goes on using the loaded manager; every 7th collects at once
+                chain = 'hold' if case_no % 3 == 0 else ('unheld' if case_no % 7 == 0 else None)
+                load_and_check(ctx, s, F, expect, onames, label, chain=chain)
                 ctx.case((tuple(fns), tuple(order), ext, label, tuple(F['permids']), tuple(F['ids'])))
             ctx.add_session(s, SECTIONS_L3, f'generated nv={nv}')
             s.close()
@@ -679,7 +797,11 @@ REGISTRY = {
             'varinfo 0/1/3, .orderedvarnames/.suppvarnames present or absent, gaps in permids, extra '
             'variables, complemented and constant roots; the 4 sample files; ~35 malformed/quirk files '
             '(answers compared only). Oracle: node list of the file evaluated directly vs truth tables by '
-            'name of the returned roots (as sets), invariants + canonicity of the manager; the Lean '
-            'specification evalFile is printed by the driver for every node/root and compared with the '
-            'harness evaluator'),
+            'name of the returned roots (as sets), invariants + canonicity of the manager, counts exact '
+            'for the EMPTY ledger, reordering off, variable order = the order the header lines '
+            'prescribe; the Lean specifications evalFile and evalFormat are printed by the driver for '
+            'every node/root and compared with the harness evaluator; every 3rd case goes on using the '
+            'loaded manager (incref roots, and of two roots, exist, collect_garbage: results against '
+            'the file tables, exact counts for the ledger), every 7th collects at once (nothing held: '
+            'no node survives); exact-state correspondence throughout'),
 }
